@@ -160,7 +160,7 @@ def o2(tier):
 @guard
 def o3(tier):
     """the pending record never overwrites a group the user is active in"""
-    ob = Ob('O3', 'process_welcome: every save_group is dominated by a lookup of the same MLS group id whose result excludes an Active record',
+    ob = Ob('O3', 'process_welcome: every save_group is dominated by a lookup of the same MLS group id whose result excludes an Active record, and the record is skipped ONLY when that lookup found an Active record',
             pure=C.PURE_MLS)
     f = ob.fn(CORE, 'welcomes::process_welcome')
     paths = ob.explore(f, pw_args())
@@ -187,9 +187,27 @@ def o3(tier):
         opt = r.child('Ok', 0, 'Option<Group>')
         stt = opt.child('Some', 0, 'Group').child(None, 12, 'GroupState').discriminant()
         ob.prove(p, z3.And(r.discriminant() == 0, z3.Or(opt.discriminant() == 0, stt != gs.index('Active'))), key, what)
+    # conversely, the guard is exactly "Active": an invitation for a group the user is NOT active in (no record, Pending, or Inactive after a removal /
+    # a declined invitation) must refresh the record from the welcome, or accepting it later re-activates a stale record (old epoch, name, admins, routing id)
+    n_skip = 0
+    for p in paths:
+        if p.kind != 'return' or vname(p.ret) != 'Ok' or any(ev_is(e, 'save_group') for e in p.trace):
+            continue
+        if not any(ev_is(e, 'save_welcome') for e in p.trace):
+            continue                                  # dedup path: the stored welcome is returned, nothing is processed
+        look = [e for e in p.trace if ev_is(e, 'get_group', 'find_group_by_mls_group_id')]
+        if not look:
+            continue
+        n_skip += 1
+        r_ = look[-1].ret
+        opt = r_.child('Ok', 0, 'Option<Group>')
+        stt = opt.child('Some', 0, 'Group').child(None, 12, 'GroupState').discriminant()
+        ob.prove(p, z3.And(opt.discriminant() == 1, stt == gs.index('Active')), 'O3/invitation-skipped-for-non-active-group',
+                 'process_welcome stores the invitation but does NOT write the pending group record although the existing record is not Active (e.g. Inactive after a removal): '
+                 'accepting the invitation then re-activates the stale record instead of the inviter\'s current group state')
     ob.require(n >= 1, 'O3/vacuity', 'no saving path')
     ob.r.bounds = {'paths': 'all'}
-    ob.r.vacuity.append(f'{len(paths)} paths, {n} write a group record')
+    ob.r.vacuity.append(f'{len(paths)} paths, {n} write a group record, {n_skip} keep the existing record')
     r = ob.done(cases=len(paths))
     from vlib import scen
     scen.confirm(r, 'O3/overwrites-existing-group', 'c16', 'c16_welcome_reusing_active_group_id')
